@@ -88,9 +88,16 @@ class AvroWriter:
         it = self.it
         if not isinstance(rec, dict):
             raise PyRaise(ValueError("record must be a mapping"))
+        rec = dict(rec)
         for f in self.schema.get("fields", []):
             v = rec.get(f["name"])
             ts = f["type"] if isinstance(f["type"], list) else [f["type"]]
+            if isinstance(v, tuple) and len(v) == 2 and isinstance(v[0], str):
+                # fastavro "tuple notation" (branch name, value): the named union branch is used as it is, the value is NOT validated against it
+                if not any((t.get("type") if isinstance(t, dict) else t) == v[0] for t in ts):
+                    raise PyRaise(ValueError(f"no union branch named {v[0]!r} for field {f['name']!r}"))
+                rec[f["name"]] = v[1]
+                continue
             if not any(avro_accepts(it, t, v) for t in ts):
                 raise PyRaise(ValueError(f"{it.type_name(v)} value of field {f['name']!r} is not an example of the schema {ts!r}"))
         import datetime as _dtm
@@ -515,6 +522,7 @@ def install(it):
         writing = any(c in mode for c in "wax")
         cur = it_.vfs.get(p)
         errors = kw.get("errors") or (a[2] if len(a) > 2 else None) or "strict"  # open(file, mode, buffering, encoding, errors, ...)
+        newline = kw.get("newline", a[3] if len(a) > 3 else None)
         if writing:
             if cur is not None and not isinstance(cur, AbsFile):
                 raise Unsupported("open() of a database path")
@@ -533,10 +541,12 @@ def install(it):
             raise PyRaise(FileNotFoundError(2, "No such file or directory", p))
         if getattr(cur, "preset", False):
             cur.preset = False
+            cur.newline = newline
             return cur
         if not isinstance(cur, AbsFile):
             raise Unsupported("open() of a database path")
         r = AbsFile(it_, cur.content(), name=p, mode=mode)
+        r.newline = newline
         for extra in ("csv_rows",):
             if hasattr(cur, extra):
                 setattr(r, extra, getattr(cur, extra))
@@ -563,6 +573,9 @@ def install(it):
         rows = getattr(fp, "csv_rows", None)
         if rows is None:
             raise Unsupported("csv.reader over a file without abstract rows")
+        if getattr(fp, "newline", "") != "":
+            # a text file that was not opened with newline='' translates \r\n and \r to \n before the csv module sees them (also inside quoted cells)
+            rows = [[c.replace("\r\n", "\n").replace("\r", "\n") if isinstance(c, str) else c for c in r] for r in rows]
         return iter([list(r) for r in rows])
 
     it.models[csv.reader] = m_csv_reader
